@@ -41,6 +41,12 @@ def main(argv):
         ok_p, theorems, assumptions, pout = vf.check_property_file(pid)
         if not ok_p:
             broken.append("Properties/%s.v no longer checks: %s" % (pid, pout.strip()[-600:]))
+        elif tier == "thorough" and not a.replay:
+            okc, txt = vf.coqchk(pid)
+            notes.append(txt)
+            assumptions = list(assumptions) + [txt]
+            if not okc:
+                broken.append("coqchk: " + txt)
         ok, out = vf.build_model()
         if not ok:
             print("FATAL: model does not build:\n" + out[-2000:], file=sys.stderr)
